@@ -415,7 +415,7 @@ class Parser(object):
             elif t[2] == '*':
                 t[0] = t[1] * t[3]
             elif t[2] == '/':
-                t[0] = t[1] / t[3]
+                t[0] = t[1] // t[3]
             elif t[2] == '<<':
                 t[0] = t[1] << t[3]
             elif t[2] == '>>':
@@ -423,6 +423,12 @@ class Parser(object):
         except ZeroDivisionError:
             self._parser_error(
                 'division by zero',
+                t.lineno(1), t.lexpos(1)
+            )
+            t[0] = 0
+        except ValueError:
+            self._parser_error(
+                'negative shift count',
                 t.lineno(1), t.lexpos(1)
             )
             t[0] = 0
